@@ -66,7 +66,7 @@ func c19GroupOf(q *UpQuery) int {
 }
 
 func TestVfC19Prefetch(t *testing.T) {
-	st := vfkit.Stats("TestVfC19Prefetch", "runs of 20-80 independent names: TTL in {8,12} s, entries primed for 1-3 client groups, then a burst of 1-120 concurrent hits per group (from 1, 2 or 4 client addresses of the group) at a drawn instant inside the last quarter of the lifetime; the upstream holds the refresh reply until all burst responses are collected (or 3 s), then the refresh ends as success (new TTL) / NXDOMAIN / SERVFAIL / REFUSED / garbage / silence / connection closed, over a UDP or a TCP upstream (where transport errors are immediate); oracles: every hit of the burst is answered from the old entry while the refresh is held, at most one refresh per group is in flight, after a successful refresh later hits carry the new fetch, after a failed or negative refresh the old entry is served until its expiry and not 2 s beyond, and a further hit in the window starts a new refresh (the reservation ended with the refresh); non-trivial = burst >= 2 inside the window")
+	st := vfkit.Stats("TestVfC19Prefetch", "runs of 20-80 independent names: TTL in {6,8,10,12} s, entries primed for 1-3 client groups, then a burst of 1-120 concurrent hits per group (from 1, 2 or 4 client addresses of the group) at a drawn instant inside the last quarter of the lifetime; the upstream holds the refresh reply until all burst responses are collected (or 3 s), then the refresh ends as success (new TTL) / NXDOMAIN / SERVFAIL / REFUSED / garbage / silence / connection closed, over a UDP or a TCP upstream (where transport errors are immediate); oracles: every hit of the burst is answered from the old entry while the refresh is held, exactly one refresh per group is started and in flight, after a successful refresh later hits carry the new fetch, after a failed or negative refresh the old entry is served until its expiry and not 2 s beyond, and a further hit in the window starts a new refresh (the reservation ended with the refresh); non-trivial = burst >= 2 inside the window")
 	defer vfkit.Flush()
 	block := NextIPBlock()
 	var names sync.Map
@@ -146,7 +146,7 @@ func TestVfC19Prefetch(t *testing.T) {
 		budget := 6000
 		for i := range all {
 			n := &c19Name{label: fmt.Sprintf("r%dn%dp%d", runNo, i, os.Getpid()), gate: make(chan struct{})}
-			n.ttl = rapid.SampledFrom([]uint32{8, 8, 12}).Draw(t, "ttl")
+			n.ttl = rapid.SampledFrom([]uint32{6, 8, 10, 12}).Draw(t, "ttl")
 			ng := rapid.IntRange(1, 3).Draw(t, "nGroups")
 			for g := 0; g < ng; g++ {
 				n.groups = append(n.groups, groupAddr[g]+itoa(1+rapid.IntRange(0, 200).Draw(t, "host")))
@@ -323,6 +323,21 @@ func TestVfC19Prefetch(t *testing.T) {
 					}
 					time.Sleep(time.Millisecond)
 				}
+				// every group's burst lay inside the refresh window of its entry (150 ms and more after its start), and nothing
+				// was in flight before: each group's refresh must have started (it reaches the upstream within milliseconds)
+				for until := time.Now().Add(600 * time.Millisecond); time.Now().Before(until); time.Sleep(2 * time.Millisecond) {
+					all := true
+					for g := range n.groups {
+						all = all && n.heldBy[g].Load() >= 1
+					}
+					if all {
+						break
+					}
+				}
+				var startedBy [3]int32
+				for g := range n.groups {
+					startedBy[g] = n.heldBy[g].Load()
+				}
 				heldNow := n.held.Load()
 				n.gateOpen.Store(true)
 				close(n.gate)
@@ -372,6 +387,10 @@ func TestVfC19Prefetch(t *testing.T) {
 						return
 					}
 					refreshed[g] = hb == 1
+					if startedBy[g] == 0 && got >= total {
+						fail("%s: the burst of group %d (%d hits, %.3fs after priming an entry with TTL %d s, i.e. %.3fs into its last quarter) started no refresh at all", n.label, g, n.burst[g], burstStart.Sub(lastPrime).Seconds(), n.ttl, burstStart.Sub(lastPrime).Seconds()-0.75*float64(n.ttl))
+						return
+					}
 				}
 				// 3. after the refresh
 				time.Sleep(400 * time.Millisecond)
